@@ -329,6 +329,19 @@ def step (d : DS) (line : String) : DS × String :=
     | "truncate" =>
       let (l', ok) := XV.Ledger.truncate d.l (arg 0)
       ({ d with l := l' }, if ok then "ok" else "fail")
+    | "ftruncate" =>
+      -- `Truncate` while every table scan of the ledger breaks off after it=<n> entries with an error
+      let (_, ok) := XV.Ledger.truncateScan d.l (arg 0) ((getKV kv "it").toNat?)
+      let (_, ok0) := XV.Ledger.truncate d.l (arg 0)
+      (d, if ok then "ok" else if ok0 then "fault" else "fail")
+    | "tips" =>
+      -- `GetBranchInfo(block)`; with it=<n> the scan breaks off after n entries: an error, never a shorter list
+      match lookup d.l.B (arg 0), (getKV kv "it").toNat? with
+      | none, _ => (d, "bad-op")
+      | some _, some _ => (d, "fault")
+      | some h, none =>
+        let ts := (XV.Ledger.scanTips d.l (arg 0) h.height).map (·.1)
+        (d, "tips=" ++ String.intercalate "," ((ts.mergeSort (· ≤ ·)).map toString))
     | "mtruncate" =>
       -- `Miner.truncateForMiner`: non-pruning walk to the target, then the ledger cut
       let (s', ok) := walk (walkEnv d (arg 0)) d.s (ledgerH d) (arg 0) false
@@ -407,7 +420,7 @@ def step (d : DS) (line : String) : DS × String :=
     | "reopen" => (d, "ok")
     | "obs" => (d, observe d ++ " pool=" ++ poolStr d.s)
     | "ledger" => (d, ledgerObs d)
-    | "verify" | "lcheck" | "cmpcopy" | "replica" | "snap" | "crashcheck" | "selrace" | "kvengine" => (d, "-")
+    | "verify" | "lcheck" | "cmpcopy" | "replica" | "snap" | "crashcheck" | "selrace" | "kvengine" | "dumpf" => (d, "-")
     | _ => (d, "bad-op")
 
 def run : IO Unit := loop step {}
